@@ -12,7 +12,9 @@ Definition as_crow (t : tree) : option (N * (Z * N)) :=
 Definition as_kind (z : Z) : option qkind :=
   match z with
   | 0 => Some SelEnt | 1 => Some SelCol | 2 => Some Count | 3 => Some Core | 4 => Some Get | 5 => Some LazyP
-  | 6 => Some Children | 7 => Some GetP | 8 => Some Refresh | 9 => Some Legacy | 10 => Some Scalars | _ => None
+  | 6 => Some Children | 7 => Some GetP | 8 => Some Refresh | 9 => Some Legacy | 10 => Some Scalars
+  | 11 => Some ScalarCore | 12 => Some ScalarText | 13 => Some ExecText | 14 => Some ScalarOrm | 15 => Some ScalarsCore
+  | 16 => Some ConnExec | _ => None
   end%Z.
 Definition as_mode (z : Z) : option qmode :=
   match z with 0 => Some MDefault | 1 => Some MNoAutoflushBlock | 2 => Some MExecOption | _ => None end%Z.
